@@ -22,9 +22,37 @@ Definition uu_obs_eqb (a b : uu_obs) : bool :=
 
 Definition c07obs := (vmobs * uu_obs)%type.
 
+(* VMRun.vm_case with more fuel: vm_case gives the run "potential + 2" steps, which is not
+   enough when CHECKMULTISIG with zero keys (cost 0, finding multisig-zero-keys) sits in a
+   loop: then there can be more steps than units of potential.  Zero-cost steps advance pc, so
+   between two paying steps there are fewer than len of them; 2*potential + len + 16 covers
+   every generated case (a shortfall would show up as EOutOfFuel = mismatch). *)
+Definition vm_case_fuel (cr : crypto) (cx : context) (vmversion : N) (statedata args : list item) (gas : Z) : vmobs :=
+  let cx := {| cx_vmversion := vmversion; cx_code := cx_code cx; cx_entryid := cx_entryid cx;
+               cx_txversion := cx_txversion cx; cx_blockheight := cx_blockheight cx;
+               cx_assetid := cx_assetid cx; cx_amount := cx_amount cx; cx_destpos := cx_destpos cx;
+               cx_spentoutputid := cx_spentoutputid cx; cx_txsighash := cx_txsighash cx;
+               cx_checkoutput := cx_checkoutput cx |} in
+  if negb (vmversion =? 1)%N then {| o_gas := gas; o_err := Some EUnsupportedVM; o_stack := None; o_trace := []; o_steps := 0%N |}
+  else
+    let s0 := init_state cx gas in
+    match (push_all push_alt statedata ;;; push_all push args) s0 with
+    | RErr e s => {| o_gas := runlimit s; o_err := Some e; o_stack := None; o_trace := []; o_steps := 0%N |}
+    | ROk _ s1 =>
+        let fuel := Z.to_nat (2 * pot s1 + Z.of_nat (length (prog s1)) + 16) in
+        match run_tr cr cx fuel s1 [] with
+        | (RErr e s, tr) =>
+            {| o_gas := match e with EUnexpected => 0 | _ => runlimit s end;
+               o_err := Some e; o_stack := None; o_trace := firstn 64 tr; o_steps := N.of_nat (length tr) |}
+        | (ROk _ s, tr) =>
+            {| o_gas := runlimit s; o_err := if false_result s then Some EFalseVMResult else None;
+               o_stack := Some (rev (dstack s)); o_trace := firstn 64 tr; o_steps := N.of_nat (length tr) |}
+        end
+    end.
+
 Definition c07_case (cr : crypto) (cx : context) (vmversion : N) (statedata args : list item)
   (gas used storage : Z) : c07obs :=
-  let o := vm_case cr cx vmversion statedata args gas in
+  let o := vm_case_fuel cr cx vmversion statedata args gas in
   (o, uu_case gas used storage (o_gas o)).
 
 Definition c07obs_eqb (a b : c07obs) : bool :=
